@@ -1,5 +1,6 @@
 """C14 - Bounces go back once, to the sender, and can neither loop nor be forged (driven world; bounce parser in lib/qhistory.py)."""
 from props import qs_common as q
+from lib import vlib
 LEVEL = "exploration"
 RULE = ("Histories restricted to failing recipients: 1-5 recipients (local/remote/virtual-domain prepends) failing permanently in generated "
         "order or temporarily past queuelifetime in {0,3600}, failure texts with embedded blank lines, forged '<victim>:' paragraphs, the copy marker, "
@@ -60,7 +61,40 @@ def interrupted_waits():
     return out
 
 
+def forwarded_bounces():
+    """delivery instructions for an address with an -owner file, met by a bounce ('' sender) or a double bounce ('#@[]'): the copy that
+    qmail-local forwards keeps the bounce sender - with the owner's address in its place a failing double bounce would bounce again, for
+    ever (dot-qmail(5): the sender is changed 'if the envelope sender is neither empty nor #@[]'). Scenarios in the format of props/c13.py,
+    executed with its runner against the real qmail-local (added after seeded change C14-L)."""
+    from props import c13
+    FW = {"t": "fwd", "amp": True, "addr": "me@new.job.example"}
+    out = []
+    for snd in ("", "#@[]", "s@x.example"):
+        for own in ([".qmail-a-owner"], [".qmail-a-owner", ".qmail-a-owner-default"], [".qmail-default-owner"], []):
+            for first in (".qmail-a", ".qmail-default"):
+                out.append(c13.base_sc(files=[c13.F(first, [FW, c13.P(0, True)])] + [c13.F(n, [c13.P(100)]) for n in own], sender=snd))
+    return out
+
+
+def run_forwarded_bounces(ctx, only=None):
+    from props import c13, local_common as lc
+    from lib import sandbox
+    sandbox.ensure_shim()
+    tree = vlib.Tree().make("qmail-local")
+    box = lc.Box(tree, "c14-local")
+    patrn = c13.get_patrn(tree)
+    out = []
+    for sc in (only or forwarded_bounces()):
+        st_ = vlib.Stats()
+        v = c13.run_case(box, sc, st_, patrn)
+        ctx.stats.case(scenario=sc, nontrivial=sc["sender"] in ("", "#@[]"), classes=["forwarded_by_real_qmail_local", "fwd_sender_%s" % ({"": "bounce", "#@[]": "double_bounce"}.get(sc["sender"], "ordinary"))])
+        if v and "sender" in v.lower():
+            out.append(("C14: " + v, sc))
+    return out
+
+
 def run(ctx):
+    ctx.stats.violations += run_forwarded_bounces(ctx)
     q.search(ctx, "C14", TAGS, 0, 0, fixed=VDOM_FORMS + HUP_FORMS + interrupted_waits())
     q.search(ctx, "C14", TAGS, 0, 0, sweep={"all": True, "faults_only": True}, fixed=FULLY_SWEPT)
     # every crash point (image kept) of the daemon and its helpers for the same history, then restart: the failures recorded before the crash
@@ -70,4 +104,9 @@ def run(ctx):
 
 
 def replay(ctx, path):
+    import json
+    j = json.load(open(path))
+    sc = j.get("scenario", j)
+    if isinstance(sc, dict) and "files" in sc and "controls" not in sc:
+        return [m for m, _ in run_forwarded_bounces(ctx, only=[sc])]
     return q.replay_scenario(ctx, path, TAGS)
